@@ -428,7 +428,7 @@ def may_throw(F, node, acquired, depth=0, seen=None):
                 n = par[id(n)]
                 if n['k'] == 'If':
                     c = show(n['c'])
-                    if any(a and a in c for a in acquired) and ('nullptr' in c or c.strip('()').startswith('!') or '== 0' in c):
+                    if acquired and any(a and a in c for a in acquired) and ('nullptr' in c or c.strip('()').startswith('!') or '== 0' in c):
                         guarded = True
                         break
             for y in walk(x):
@@ -481,16 +481,37 @@ def rule_ctor(ctx, R, config='K0', classes=('randomx::JitCompilerX86',)):
         released = [show(c['a'][0]).replace('this->', '') for c in calls(d['body']) if c.get('name') in ('freePagedMemory',)]
         if not released:
             raise AnalysisBroken('LIFE-CTOR: destructor of %s releases nothing' % cls)
-        seq = [i['e'] for i in f.get('inits', []) if astq.is_node(i.get('e'))] + (f['body']['s'] if f['body']['k'] == 'Compound' else [f['body']])
+        ini = [i for i in f.get('inits', []) if astq.is_node(i.get('e'))]
+        seq = [i['e'] for i in ini] + (f['body']['s'] if f['body']['k'] == 'Compound' else [f['body']])
+        ALLOC = ('allocMemoryPages', 'allocLargePagesMemory')
+
+        def targets(idx, st):
+            """names of the members that receive a mapping in this statement"""
+            out = []
+            if idx < len(ini):
+                if any(c.get('name') in ALLOC for c in calls(st)):
+                    out.append(ini[idx]['member'])
+                return out
+            for x in walk(st):
+                if x['k'] == 'Assign' and any(c.get('name') in ALLOC for c in calls(x['r'])):
+                    out.append(show(x['l']).replace('this->', '').strip('()'))
+            if not out and any(c.get('name') in ALLOC for c in calls(st)):
+                out.append('?')
+            return out
         acq = None
         for idx, st in enumerate(seq):
-            if any(c.get('name') in ('allocMemoryPages', 'allocLargePagesMemory') for c in calls(st)):
+            if any(c.get('name') in ALLOC for c in calls(st)):
                 acq = idx
                 break
         if acq is None:
             raise AnalysisBroken('LIFE-CTOR: %s::%s maps nothing' % (cls, short))
         bad = []
-        for st in seq[acq + 1:]:
-            bad += may_throw(F, st, tuple(released) + tuple('this->' + r for r in released))
+        held = targets(acq, seq[acq])
+        for idx in range(acq + 1, len(seq)):
+            st = seq[idx]
+            held = held + [t for t in targets(idx, st) if t not in held]
+            # a throw under `if (p == nullptr)` is the failure path of p's own mapping; it leaks nothing only when p is the one mapping made so far
+            excuse = tuple(held) + tuple('this->' + r for r in held) if len(held) == 1 and held[0] != '?' else ()
+            bad += may_throw(F, st, excuse)
         R.check(not bad, '%s constructor [%s]' % (short, config), '%s:%d' % (f['file'], f['line']), expected='nothing that can throw after allocMemoryPages succeeded',
                 found=['%s at line %s' % (why, x.get('ln')) for x, why in bad[:3]] or 'nothing')
